@@ -48,7 +48,7 @@ impl Gen {
         let n_users = rng.range(1, 4) as u32;
         let n_disputes = rng.range(2, 6) as u32;
         let mut slots = *rng.pick(&[1u32, 2, 3, 5, 20, 10_000]);
-        if profile == Profile::Http && rng.chance(1, 8) {
+        if (profile == Profile::Http && rng.chance(1, 8)) || (profile == Profile::Expiry && rng.chance(1, 10)) {
             // a second registration exhausts the slot counter (error code 65)
             slots = *rng.pick(&[u32::MAX, u32::MAX / 2 + 1]);
         }
@@ -402,7 +402,7 @@ impl Gen {
                 self.ops.push(Op::Poll);
             }
             4 => self.ops.push(Op::RegisterBadId {
-                kind: self.rng.below(3) as u32,
+                kind: self.rng.below(5) as u32,
             }),
             5 => self.ops.push(Op::Restart),
             6 => self.ops.push(Op::Poll),
